@@ -294,4 +294,58 @@ def rule_e(prog, rep):
                           'the files before the load', key=f'C10.e/{fname}/lock')
 
 
-RULES = [('C10.a', rule_a), ('C10.b', rule_b), ('C10.c', rule_c), ('C10.d', rule_d), ('C10.e', rule_e)]
+def rule_f(prog, rep):
+    rep.rule('C10.f', 'T3+T7+T1', 'a slot is always rewritten as a pair: every Ok exit of v3::write_and_check has written the data file '
+             '(write_to_disk(data, file_path)) and then its checksum (write_to_disk(compute_checksum(data), checksum_file_path)); the '
+             'function decides nothing from what is currently on disk (no read of an existing file), so a torn pair left by a '
+             'crash is repaired by the next flush of that slot')
+    crate = prog.crate(WB)
+    f = crate.fn(f'{J3}::write_and_check')
+    b = Bindings(crate, f)
+    wcalls = crate.calls(f, lambda c: c == f'{J3}::write_to_disk')
+    ids = {id(w[0]): i for i, w in enumerate(wcalls)}
+
+    def classify(nd, anc):
+        if nd.get('k') != 'call':
+            return None
+        c = callee(nd)
+        if c == f'{J3}::write_to_disk':
+            return f'w{ids.get(id(nd), "?")}'
+        if c == f'{J3}::compute_checksum':
+            return None
+        sh = short(c)
+        if ('fs::' in c or 'File' in c or 'OpenOptions' in c) and sh not in ('as_bytes',):
+            return 'disk:' + sh
+        return None
+    paths = Tracer(crate, classify).run_fn(f)
+    problems = []
+    oks = ok_exits(paths)
+    if not oks:
+        problems.append('no Ok path')
+    for (ex, t, v) in oks:
+        tb = [x for x in t if '@' not in x]
+        if [x for x in tb if x.startswith('w')] != ['w0', 'w1']:
+            problems.append(f'an Ok exit without writing both files: {tb}')
+    if any(x.startswith('disk:') for (ex, t, v) in paths for x in t):
+        problems.append('consults / touches the disk outside write_to_disk: ' +
+                        str(sorted({x for (ex, t, v) in paths for x in t if x.startswith('disk:')})))
+    if len(wcalls) == 2:
+        d0, p0 = b.origins(wcalls[0][0]['args'][0]), b.origins(wcalls[0][0]['args'][1])
+        d1, p1 = b.origins(wcalls[1][0]['args'][0]), b.origins(wcalls[1][0]['args'][1])
+        if d0 != {'param(data)'} or p0 != {'param(file_path)'}:
+            problems.append(f'first write is not (data -> file_path): {sorted(d0)} -> {sorted(p0)}')
+        if d1 != {f'call({J3}::compute_checksum)'} or p1 != {'param(checksum_file_path)'}:
+            problems.append(f'second write is not (checksum -> checksum_file_path): {sorted(d1)} -> {sorted(p1)}')
+        cc = crate.calls(f, lambda c: c == f'{J3}::compute_checksum')
+        if len(cc) != 1 or b.origins(cc[0][0]['args'][0]) != {'param(data)'}:
+            problems.append('the checksum is not computed from the data being written')
+    else:
+        problems.append(f'{len(wcalls)} write_to_disk sites')
+    if problems:
+        rep.violation('C10.f', 'v3::write_and_check', f.loc, '; '.join(sorted(set(problems)))[:700],
+                      key='C10.f/write_and_check/' + '|'.join(sorted({p_.split(':')[0] for p_ in problems})))
+    else:
+        rep.ok('C10.f', 'v3::write_and_check', f.loc, 'data, then checksum of that data, unconditionally; nothing read back from the slot')
+
+
+RULES = [('C10.f', rule_f), ('C10.a', rule_a), ('C10.b', rule_b), ('C10.c', rule_c), ('C10.d', rule_d), ('C10.e', rule_e)]
